@@ -378,6 +378,33 @@ pub fn es_j2() -> Family {
     Family::list(out)
 }
 
+/// ES-N: islands: m repetitions of (a run of k characters native to one dense mode + one character
+/// that mode cannot carry), then a final run: many short ASCII islands between long runs.
+pub fn es_n(max_islands: usize) -> Family {
+    let runs: Vec<&[u8]> = vec![b"*\r>", b"*A^ ", b"A", b"a", b"1"];
+    let islands: Vec<&[u8]> = vec![b"a", &[0x80], b"~", b"\n", b"A"];
+    let mut out = Vec::new();
+    for r in &runs {
+        for isl in &islands {
+            if r == isl {
+                continue;
+            }
+            for k in [3usize, 6, 9, 12] {
+                for m in 1..=max_islands {
+                    let mut v = Vec::new();
+                    for _ in 0..m {
+                        v.extend(r.iter().cycle().take(k));
+                        v.extend_from_slice(isl);
+                    }
+                    v.extend(r.iter().cycle().take(k));
+                    out.push(v);
+                }
+            }
+        }
+    }
+    Family::list(out)
+}
+
 /// Inputs named in DESIGN.md (witnesses of the defects, golden inputs of the repository's tests).
 pub fn named_inputs() -> Vec<Vec<u8>> {
     let mut v: Vec<Vec<u8>> = vec![
